@@ -29,6 +29,7 @@ type Opts struct {
 	ShareSubtrees   bool // reuse generated subtrees (rendered as YAML anchor + aliases)
 	BothCommandKeys bool // now and then a command step carries both `command` and `commands`
 	LongPipelines   bool // now and then a pipeline of 31..130 small steps
+	DeepNesting     bool // now and then a value nested 12..65 levels deep under an unknown key of a step
 	BadStepEntries  bool // now and then an entry of the top-level step list is not a step at all
 	TwoKindSteps    bool // now and then a step mapping carries keys of two step kinds
 	counter         int
@@ -751,6 +752,21 @@ func (o *Opts) Pipeline() *Node {
 	}
 	for i := 0; i < n; i++ {
 		steps.Seq = append(steps.Seq, o.Step(0))
+	}
+	if o.DeepNesting && len(steps.Seq) > 0 && t.Draw(30, "pipe:deep") == 29 {
+		// a value nested to a depth around common limits (16, 32, 64) under an unknown key of one step
+		depth := []int{12, 14, 15, 16, 17, 26, 27, 28, 29, 30, 31, 32, 33, 34, 60, 62, 63, 64, 65}[t.Draw(19, "pipe:deep-n")]
+		v := Str("bottom")
+		for d := 0; d < depth; d++ {
+			if t.Draw(2, "pipe:deep-kind") == 0 {
+				v = Seq(v)
+			} else {
+				v = Map().Set("k", v)
+			}
+		}
+		if st := steps.Seq[t.Draw(len(steps.Seq), "pipe:deep-at")]; st.Kind == KMap && !st.Has("x-deep") {
+			st.Set("x-deep", v)
+		}
 	}
 	if o.BadStepEntries && t.Draw(10, "pipe:bad-entry") == 9 {
 		// an entry that is neither a string nor a mapping (or a mapping whose type is not a string): no step
